@@ -129,7 +129,9 @@ def World.dealloc (w : World) (b n tag : Nat) : World :=
              | some blk => w.heap.set b { blk with freed := blk.freed + 1,
                                                    bad := blk.bad || (blk.size != n) || (blk.tag != tag) || (blk.freed != 0),
                                                    leaked := blk.leaked || (blk.cons != 0) }
-             | none => w.heap }
+             -- a deallocate that names no block at all is recorded as a bad pseudo block (never happens: `_memory` only ever holds ids
+             -- returned by `alloc`; the invariant's "no bad block" covers it)
+             | none => w.heap ++ [{ size := n, tag := tag, freed := 1, bad := true }] }
 
 /-- ghost: `n` more elements are constructed inside block `b` -/
 def World.grow (w : World) (b : Option Nat) (n : Nat) : World :=
@@ -415,6 +417,33 @@ def run (c : Cfg) (w : World) : List Op → World
     | (w', _) => run c w' rest
 
 def World.init (fa fc : Option Nat) : World := { failA := fa, failC := fc }
+
+/-! ### the ghost heap is a function of the event log alone -/
+
+/-- what the event log determines about a block -/
+structure GBlock where
+  size : Nat
+  tag : Nat
+  freed : Nat
+  bad : Bool
+  deriving Repr, DecidableEq
+
+/-- apply one logged event to a ghost heap, exactly as `World.alloc` / `World.dealloc` do (an alloc event whose id is not the next
+    sequence number marks its block bad) -/
+def ghostStep (h : List GBlock) : Event → List GBlock
+  | .alloc id n t => h ++ [⟨n, t, 0, id != h.length⟩]
+  | .dealloc b n t =>
+    match h[b]? with
+    | some g => h.set b { g with freed := g.freed + 1, bad := g.bad || (g.size != n) || (g.tag != t) || (g.freed != 0) }
+    | none => h ++ [⟨n, t, 1, true⟩]
+
+/-- replay of a log given oldest first -/
+def ghostReplay (log : List Event) : List GBlock := log.foldl ghostStep []
+
+def Block.strip (b : Block) : GBlock := ⟨b.size, b.tag, b.freed, b.bad⟩
+
+/-- the model's heap of blocks agrees with the replay of the model's printed log -/
+def HeapLog (w : World) : Prop := w.heap.map Block.strip = ghostReplay w.log.reverse
 
 /-! ### Spec-level predicates on the allocator event log (what the property demands of the log) -/
 
